@@ -223,7 +223,12 @@ pub fn run_which(report: &Report, thorough: bool, which: Which) -> Evidence {
         let nb = if thorough { bases.len() } else { 6 };
         run("W6", &two, nb, &|w, j| {
             let base = bases[j];
-            let files = std::collections::BTreeMap::new();
+            // (the user's auto-correct file of this configuration is put back each time the store is emptied)
+            let mut files = std::collections::BTreeMap::new();
+            if !w.oracle.user_ac.is_empty() {
+                let m: serde_json::Map<String, serde_json::Value> = w.oracle.user_ac.iter().map(|(k, v)| (k.clone(), json!(v))).collect();
+                files.insert("autocorrect.json".to_string(), serde_json::Value::Object(m).to_string());
+            }
             // number of candidates of the base on an empty store
             let _ = crate::histgraph::fresh(&mut w.ctx, &files);
             let mut n = 0;
